@@ -4,6 +4,7 @@
 -/
 import CC.Threefish.Lemmas
 import CC.Threefish.Src
+import CC.Thm.C10
 namespace CC.Thm.C09
 open CC CC.Threefish CC.Threefish.Model
 
@@ -157,5 +158,8 @@ theorem source_code_match :
    CC.Src.src_threefish1024_encrypt_block_no_unroll,
    CC.Src.src_threefish1024_decrypt_block,
    CC.Src.src_threefish1024_decrypt_block_no_unroll⟩
+
+/-- the trait impls and `NewBlockCipher::new` (re-export of `CC.Thm.C10.source_glue_match`) -/
+theorem source_glue_match : type_of% @CC.Thm.C10.source_glue_match := CC.Thm.C10.source_glue_match
 
 end CC.Thm.C09
